@@ -104,7 +104,7 @@ def special_inputs():
 
 def byte_inputs(seed, n):
     r = random.Random(seed)
-    alpha = list(b"abfxPROGEND oi:=;,()+-<>!$#0129\n\t\"/_") + [0xE9, 0x01, 0x7F, 0xFF]
+    alpha = list(b"abfxPROGEND oi:=;,()+-<>!$#0129\n\t\"/_") + [0xE9, 0x01, 0x7F, 0xFF, 0x00]
     words = [b"PROGRAM", b"END", b"DEFINE", b"AS", b"END DEFINE", b"LOOP", b"DO", b"WHILE", b"!= 0", b"RUN", b"WITH", b":=", b"<P>", b"<V>",
              b"<ARGS>", b"$0", b"#1", b"include \"m\"", b"include \"q\"", b"IF", b"THEN", b"GOTO", b"x", b"f", b"1", b"99999999999", b";", b",", b"IN", b"OUT",
              b"PRIO", b"//", b"\n"]
@@ -146,6 +146,24 @@ def mutated_programs(seed, n):
             f[victim] = " ".join(words)
             out.append({"files": f, "main": p["main"]})
     return out
+
+
+def default_stack(chk, th):
+    """flat legal sources of growing length compiled on a thread with the platform's default 8 MB stack (plain build): the harness's
+    1 GB stack would hide recursion that grows with the length of a statement sequence"""
+    n = 0
+    for size in (2000, 8000, 60000, 200000):
+        src = ";\n".join("x%d := %d" % (j % 9, j % 5) for j in range(size)) + "\n"
+        recs, rc, err = run_th(th, ["compile"], [{"i": 0, "files": {"m": src}, "main": "m", "stack_mb": 8, "watch": 600}], timeout=900)
+        got = next((x for x in recs if "ok" in x), None)
+        n += 1
+        if got is None:
+            kind = "stack overflow (SIGSEGV)" if rc in (-11, 139) else "exit %s" % rc
+            chk.violation("c02:stack8m:flat:%d" % size, "Theo::compile did not return normally (%s) on a flat legal source of %d assignments (%d KB) "
+                          "on a thread with the default 8 MB stack" % (kind, size, len(src) // 1024), {"statements": size, "stack_mb": 8})
+        elif not got["ok"]:
+            chk.violation("c02:stack8m:reject:%d" % size, "a flat legal source of %d assignments was rejected: %s" % (size, got["errors"][:2]), {"statements": size})
+    return n
 
 
 def run(chk):
@@ -279,6 +297,7 @@ def run(chk):
     import x01
     nx, _ = x01.extract_leg(chk, tha, 6 if chk.thorough else 5)
     chk.add("extraction_streams_compared_with_TheoExtract", nx)
+    chk.add("flat_sources_on_default_stack", default_stack(chk, th_plain))
     chk.cov["evaluations"] = len(inputs)
     shapes = {(e["ok"], tuple((x["t"], x["file"] == "-", x["file"] == "__standards__") for x in e["errors"][:3])) for e in evs}
     chk.cov["distinct_nontrivial"] = len(shapes)
@@ -289,6 +308,6 @@ def run(chk):
                        "programs with macros and includes, generated multi-file sources whose only faults are static (unset mark, unknown program); all compiled on the ASan/UBSan build with a 1 GB stack; non-trivial/distinct = "
                        "distinct result shapes (ok flag, first three error types and location classes)")
     chk.sample({"input": inputs[len(inputs) // 2], "result": evs[len(evs) // 2] if evs else None})
-    chk.assumptions += ["NUL bytes excluded; inputs <= 64 KB", "leaks are observed by LeakSanitizer at process exit per batch",
+    chk.assumptions += ["inputs <= 64 KB", "leaks are observed by LeakSanitizer at process exit per batch",
                         "TheoIface.tla (ResultOK) evaluated by TLC on one event per compilation"]
     log("C02: %d inputs, %d results accepted, %d distinct shapes" % (len(inputs), accepted, len(shapes)))
